@@ -9,7 +9,7 @@ def name(rng, kind=None):
     if kind == "dist":
         return rng.choice(["foo-1.0.tar.gz", "bar.tgz", "x", "patch-2.7.6.tar.xz", "patch-local-x", "patch-a.orig", "patch-b.rej", "patch-c~", "emul-x", "a.patch-1"]).encode()
     if kind == "patch":
-        return rng.choice(["patch-aa", "patch-Makefile", "patch-src_main.c", "emul-linux-patch-b", "patch-", "patch-é"]).encode()
+        return rng.choice(["patch-aa", "patch-Makefile", "patch-src_main.c", "emul-linux-patch-b", "patch-", "patch-é", "patch-mk_build.target.mk", "patch-dist_foo.tar", "emul-linux-patch-x.tar_gz", "emul-patch-aa"]).encode()
     if kind == "sub":
         return (rng.choice(["dir", "a/b", "go-mod", "./x", "d//e", "p/."]) + "/" + rng.choice(["foo.tar.gz", "patch-aa", "v1.zip"])).encode()
     if kind == "odd":
